@@ -46,7 +46,12 @@ def sig_of(t, bad, l):
 def run(ctx):
     ctx.mc(FAM, "KeepAlive", "MC_KeepAlive.cfg", required_actions=["Respond1", "Respond2"])
     paths = ctx.gen_paths(FAM, "Gen_KeepAlive", "Gen_KeepAlive.cfg")
-    rows = [extra["cfg"] for extra, path in paths if len(path) == 2]
+    rows, seen = [], set()
+    for extra, path in paths:          # rows whose allowance is free appear once per accepted decision
+        k = framework.jdump(extra["cfg"])
+        if len(path) == 2 and k not in seen:
+            seen.add(k)
+            rows.append(extra["cfg"])
     jobs = [(i + 1, row, {}) for i, row in enumerate(rows)]
     # every row again with the client's receive window closed while request 1 is handled: the response is
     # still being written when the handler (prepare() of an early-finishing handler) returns
@@ -72,7 +77,7 @@ def run(ctx):
     traces = framework.pool_map(_job, jobs + vjobs)
     ctx.validate(FAM, "Trace_KeepAlive", "Trace_KeepAlive.cfg", traces, label="s2c+c2s", sig_fn=drv.with_kind(sig_of, base + 1), timeout=900)
     ctx.cov["rule"] = ("rows: the full well-formed product version{1.0,1.1} x Connection{absent,close,Close,keep-alive,"
-                       "Keep-Alive,'close, x','x, close',x} x method x request framing x no_keep_alive x early finish x "
+                       "Keep-Alive,'close, x','x, close',x,'keep-alive, x','keep-alive, close'} x method x request framing x no_keep_alive x early finish x "
                        "style{buffered,flushed,flushed+Content-Length} x status{200,204} (%d rows), each followed by a second "
                        "request; plus seeded variants (pipelined in one piece, random segmentation, streaming handlers)" % len(rows))
     ctx.cov["trusted_base"] += ["harness/httpw_driver.py (moves bytes only)", "specs/httpw/RespReader.tla (strict reader, TLA+)"]
